@@ -70,7 +70,7 @@ def run_cases(prop, harness_bin, bindir, inputs, env=None):
     return out
 
 
-def shrink(ctx, v, bindir, harness_bin, failing, rounds=12):
+def shrink(ctx, v, bindir, harness_bin, failing, rounds=25):
     """v = (id, input, impl, model, spec, inK); failing(result_tuple) -> bool. Greedy sub-term deletion, batched."""
     cur = parse(v[1])
     best = v
@@ -79,9 +79,10 @@ def shrink(ctx, v, bindir, harness_bin, failing, rounds=12):
         seen = set()
         for c in variants(cur):
             s = show(c)
-            if s not in seen and size(c) < size(cur) or (size(c) == size(cur) and s != show(cur) and s not in seen):
-                seen.add(s)
-                cands.append(c)
+            if s in seen or s == show(cur):
+                continue
+            seen.add(s)
+            cands.append(c)
         cands.sort(key=size)
         cands = cands[:300]
         if not cands:
